@@ -169,3 +169,15 @@ def real_chain(js_list):
         return world.run_chain(scs)
     except runner.HangError:
         return ['HANG'] * len(scs)
+
+
+def real_chain_final(js_list):
+    """like real_chain, plus the state of every connection's simulated socket / selector after the whole chain
+       (kept generators have been finalised by then)"""
+    scs = [scenario_from_json(j) for j in js_list]
+    worlds = []
+    try:
+        traces = world.run_chain(scs, worlds)
+    except runner.HangError:
+        return dict(traces=['HANG'] * len(scs), final=[])
+    return dict(traces=traces, final=[[1 if w.sock_open else 0, 1 if w.sel_open else 0] for w in worlds])
